@@ -110,6 +110,7 @@ inductive Ev where
   | spawn (t : Tid) (child : Tid)
   | signal (t : Tid) (c : Nat)   -- close(ch) / send / the end of f in once.Do(f) / wg.Done
   | wait (t : Tid) (c : Nat)     -- the matching receive / return of once.Do / wg.Wait
+  | assume (t : Tid) (m : Mutex) (mode : Mode)   -- marker: an annotation claims that `t` holds `m` here (no effect)
 deriving DecidableEq, Repr
 
 def Ev.tid : Ev → Tid
@@ -119,6 +120,7 @@ def Ev.tid : Ev → Tid
   | .spawn t _ => t
   | .signal t _ => t
   | .wait t _ => t
+  | .assume t _ _ => t
 
 /-- state of one mutex: the exclusive holder, the multiset of shared holders -/
 structure MState where
@@ -146,6 +148,7 @@ def stepL (s : LState) : Ev → Option LState
   | .spawn _ _ => some s
   | .signal _ _ => some s
   | .wait _ _ => some s
+  | .assume _ _ _ => some s
 
 def runL (s : LState) : List Ev → Option LState
   | [] => some s
@@ -164,9 +167,14 @@ def holdsIn (s : LState) (t : Tid) (h : Hold) : Prop :=
 def HoldsAt (tr : List Ev) (i : Nat) (t : Tid) (h : Hold) : Prop :=
   ∃ s, runL LState.init (tr.take i) = some s ∧ holdsIn s t h
 
+/-- a recorded hold is satisfied by an actual hold of the same mutex in the recorded mode — or, for a recorded
+    shared hold, by an exclusive one (a must-lockset row says `shared` when some paths hold RLock and others Lock) -/
+def HoldsAtLeast (tr : List Ev) (i : Nat) (t : Tid) (h : Hold) : Prop :=
+  HoldsAt tr i t h ∨ (h.mode = .shared ∧ HoldsAt tr i t ⟨h.m, .excl⟩)
+
 /-- every access of the execution is a row of the table and is performed while the recorded locks are held -/
 def Respects (tbl : List Access) (tr : List Ev) : Prop :=
-  ∀ i t a, tr[i]? = some (.acc t a) → a ∈ tbl ∧ ∀ h ∈ a.locks, HoldsAt tr i t h
+  ∀ i t a, tr[i]? = some (.acc t a) → a ∈ tbl ∧ ∀ h ∈ a.locks, HoldsAtLeast tr i t h
 
 /-- happens-before between positions of an execution -/
 inductive HB (tr : List Ev) : Nat → Nat → Prop where
